@@ -343,6 +343,9 @@ func main() {
 			// derived from a KeyID that does decode (and selects the touchless type): text after or before it, every
 			// required member removed in turn, or moved into a member the decoder ignores
 			good := `{"prins":["a"],"transID":"t","reqUser":"u","reqIP":"i","reqHost":"h","isFirefighter":false,"isHWKey":true,"isHeadless":false,"isNonce":false,"touchPolicy":1,"ver":1}`
+			for _, v := range []string{"65537", "131073", "-65535", "4294967297", "1.0e0", "1e0"} {
+				bad = append(bad, strings.Replace(good, `"ver":1`, `"ver":`+v, 1))
+			}
 			for _, tail := range []string{"x", "}", good, " trailing", "\n[]", ",", "\x00"} {
 				bad = append(bad, good+tail)
 			}
